@@ -1,7 +1,7 @@
 """C08 — a peer counts as authenticated only after a valid SASL exchange."""
 META = {
     "explanation": "One-step induction over the server-side command alphabet on the real dbus-auth.c handlers with ghost-modelled strings and credentials.",
-    "outside": ["DBUS_COOKIE_SHA1 (keyring files, SHA-1, hex)", "the byte-level line splitter (process_command) and the 16 KiB buffering bound (_dbus_auth_do_work)",
+    "outside": ["DBUS_COOKIE_SHA1 first response, keyring files, SHA-1 itself, hex decoding of DATA (the second-response acceptance test is covered by C08.sha1)", "the byte-level line splitter (process_command) and the 16 KiB buffering bound (_dbus_auth_do_work)",
                 "transport side: _dbus_transport_try_to_authenticate, do_reading gate, kernel credentials", "client side of the handshake"],
 }
 def jobs(tier):
@@ -13,4 +13,10 @@ def jobs(tier):
                        "hex decoding = symbolic outcome", "mechanism name comparison = ghost client choice; allowed_mechs = symbolic per mechanism"],
                 assumes=["invariant I on the pre-state (proved inductive by the same job)", "client never selects DBUS_COOKIE_SHA1 (outside the claim)"],
                 bounds="any of the 3 server states x 10 commands x symbolic mechanism choice / allowed list / credentials answers / failure counter 0..99 / max_failures 1..100; every string operation may fail",
-                shape="one server step")]
+                shape="one server step")] + [
+            Job(name=f"sha1.L{l}", group="C08.sha1", harness="harness/C08_sha1.c", defines={"L": l, "H": 3}, real=["dbus/dbus-string.c"], env=["assert_stubs.c", "mem.c", "memfuncs.c"], checks="assert",
+                unwind=24, timeout=900, mem_gb=20, extra=["--object-bits", "12"], tiers=("quick", "thorough") if l == 7 else ("thorough",),
+                encodes=["sha1_handle_second_client_response", "sha1_compute_hash", "send_ok", "send_rejected", "shutdown_mech", "_dbus_string_find_blank", "_dbus_string_skip_blank", "_dbus_string_copy_len", "_dbus_string_equal"],
+                stubs=["_dbus_sha_compute = 3 solver-chosen hex characters (ghost digest)", "_dbus_keyring_get_hex_key = fails / empty key (unknown cookie id) / a key", "DBusCredentials ghost"],
+                assumes=["no allocation failure (--no-malloc-may-fail)", "digest shortened from 40 to 3 hex characters (the comparison code does not depend on the length)"],
+                bounds=f"DATA payload of exactly {l} arbitrary bytes, digest 3 hex characters, failures 0..5 of 6", shape=f"payload length {l}") for l in (5, 7, 9)]
